@@ -59,6 +59,12 @@ Fixpoint unquote (s : string) : string :=
     else String c (unquote r)
   end.
 
+(* CouchDBObjectStore._transform_id(identifier, url_quote=True): a quoted "." / ".." would be removed from
+   the URL as a dot segment, so it is percent-encoded *)
+Definition transform_id (i : string) : string :=
+  let q := quote i in
+  if String.eqb q "." then "%2E" else if String.eqb q ".." then "%2E%2E" else q.
+
 Fixpoint skip (n : nat) (s : string) : string :=
   match n, s with
   | S m, String _ r => skip m r
@@ -73,10 +79,10 @@ Definition http_scheme (c : cfg) : string := if c_secure c then "https://" else 
 Definition couch_scheme (c : cfg) : string := if c_secure c then "couchdbs://" else "couchdb://".
 Definition base_url (c : cfg) : string := http_scheme c ++ c_rest c.
 (* "{}/{}/{}".format(self.url, self.database_name, self._transform_id(id)) *)
-Definition doc_url (c : cfg) (i : ident) : string := base_url c ++ "/" ++ quote i.
+Definition doc_url (c : cfg) (i : ident) : string := base_url c ++ "/" ++ transform_id i.
 (* generate_source: url.replace("https://","couchdbs://").replace("http://","couchdb://") + "/" + db + "/" + quote(id)
    (the replacements are assumed to hit the scheme only) *)
-Definition generate_source (c : cfg) (i : ident) : string := couch_scheme c ++ c_rest c ++ "/" ++ quote i.
+Definition generate_source (c : cfg) (i : ident) : string := couch_scheme c ++ c_rest c ++ "/" ++ transform_id i.
 (* CouchDBBackend._parse_source *)
 Definition parse_source (s : string) : option string :=
   if prefix "couchdbs://" s then Some ("https://" ++ skip 11 s)
@@ -492,7 +498,11 @@ Definition step (c : cfg) (f : fspec) (w : world) (o : op) : res :=
   | Add x => op_add c f w x
   | GetId i => op_get c f w i
   | Modify x v =>
-    (mkWorld (w_sv w) (mkClient (upd_cell (heap (w_cl w)) x (set_val v)) (revs (w_cl w)) (cache (w_cl w))), ODone, 0)
+    match nth_error (heap (w_cl w)) x with
+    | Some _ =>
+      (mkWorld (w_sv w) (mkClient (upd_cell (heap (w_cl w)) x (set_val v)) (revs (w_cl w)) (cache (w_cl w))), ODone, 0)
+    | None => (w, OErr XBadArg, 0)
+    end
   | Commit x => op_commit c f w x
   | Update x => op_update c f w x
   | Discard x safe => op_discard c f w x safe
